@@ -166,24 +166,51 @@ pool_static(void)
 	    mpool_t_static);
 }
 
+/*
+ * The exit handlers the pools registered with atexit() (library calls of atexit() go to the wrapper, which records them
+ * instead of performing them).  At the end of a case the harness does what process exit would do: it runs a pool's
+ * handler if -- and only if -- the library registered it.
+ */
+static void (* wb_exitfn[16])(void);
+static int wb_nexitfn = 0;
+
+static void
+wb_atexit_hook(void (* fn)(void))
+{
+
+	if (wb_nexitfn < 16)
+		wb_exitfn[wb_nexitfn++] = fn;
+}
+
 static void
 pool_atexit(void)
 {
+	void (* fn)(void);
+	int i, registered = 0;
 
 	switch (mp_size) {
 	case 1:
-		mpool_t1_atexit();
+		fn = mpool_t1_atexit;
 		break;
 	case 2:
-		mpool_t2_atexit();
+		fn = mpool_t2_atexit;
 		break;
 	case 3:
-		mpool_t3_atexit();
+		fn = mpool_t3_atexit;
 		break;
 	default:
-		mpool_t_atexit();
+		fn = mpool_t_atexit;
 		break;
 	}
+	for (i = 0; i < wb_nexitfn; i++) {
+		if (wb_exitfn[i] == fn) {
+			registered = 1;
+			wb_exitfn[i] = wb_exitfn[--wb_nexitfn];
+			i--;
+		}
+	}
+	if (registered)
+		fn();
 }
 
 static void
@@ -267,6 +294,8 @@ main(void)
 	setvbuf(stdout, NULL, _IOFBF, 1 << 16);
 #ifdef HC_BLACKBOX
 	hw_atexit_hook = bb_atexit_hook;
+#else
+	hw_atexit_hook = wb_atexit_hook;
 #endif
 	while (hc_next()) {
 		hw_begin();
